@@ -3,8 +3,9 @@ from ._util import H, KGroup, lemire_rows
 
 
 def plan(tier, seed):
-    hs = [H("pf::p3_lossy_f32_4", "lossy on/off: same acceptance, count, error (numerics stubbed)", "arbitrary bytes len<=4"),
-          H("pf::p3_lossy_f64_4", "", "arbitrary bytes len<=4")]
+    n = 3 if tier == "quick" else 4
+    hs = [H("pf::p3_lossy_f32_%d" % n, "lossy on/off: same acceptance, count, error (numerics stubbed)", "arbitrary bytes len<=%d" % n),
+          H("pf::p3_lossy_f64_%d" % n, "", "arbitrary bytes len<=%d" % n)]
     if tier == "thorough":
         hs.append(H("pf::p3_lossy_f32_5", "", "arbitrary bytes len<=5"))
     return {
@@ -14,7 +15,7 @@ def plan(tier, seed):
                 + (["lemire_wrap_f64@exponent=5", "lemire_wrap_f32@exponent=0"] if tier == "quick" else
                    ["lemire_wrap_f64@exponent=%d" % q for q in (-20, -5, 0, 5, 22, 27, 28, 55, 100, 300)] + ["lemire_wrap_f32@exponent=%d" % q for q in (-20, 0, 10, 30)])},
         "functions_encoded": ["lexical_core::parse_with_options / parse_partial_with_options (lossy)", "lexical_parse_float::lemire::compute_float (lossy vs exact, MIR -> SMT)", "lexical_parse_float::lemire::lemire (truncated-digits second pass: with lossy never the error marker)"],
-        "bounds": ["grammar layer: arbitrary bytes len<=4 (5 thorough)", "lemire(num, lossy): per exponent row, every mantissa (19-digit mantissas when digits were truncated), many_digits and lossy symbolic: lossy => result is a float, not the error marker", "compute_float(q,w,true) vs compute_float(q,w,false), per table row q (boundary + seeded rows in quick, all rows thorough), all 64-bit w: equal, or the exact result is the error marker"],
+        "bounds": ["grammar layer: arbitrary bytes len<=3 (quick) / 4-5 (thorough)", "lemire(num, lossy): per exponent row, every mantissa (19-digit mantissas when digits were truncated), many_digits and lossy symbolic: lossy => result is a float, not the error marker", "compute_float(q,w,true) vs compute_float(q,w,false), per table row q (boundary + seeded rows in quick, all rows thorough), all 64-bit w: equal, or the exact result is the error marker"],
         "outside_claim": ["within-one-ULP when the exact algorithm falls back to the slow path", "Bellerophon (compact/radix) lossy"],
         "stubs_and_assumes": ["grammar harnesses stub the numeric back end"],
         "assumptions": [],
